@@ -223,6 +223,512 @@ def run_parser(case: dict) -> Outcome:
     return Outcome(None, None, nt, tuple(classes))
 
 
+# --------------------------------------------------------------------------
+# family 2: datagrams injected into a live SCTP association
+
+from checks.sctp_common import base_problems, drain_verdict, session_classes  # noqa: E402
+from vlib.sctpsim import Session  # noqa: E402
+from vlib.strategies import create_op, fate_list, send_op  # noqa: E402
+
+OPEN_VALID = struct.pack("!BBHLHH", 3, 0, 0, 0, 2, 0) + b"hi"
+DCEP_BODIES = [
+    OPEN_VALID,
+    OPEN_VALID[:5],  # truncated below the fixed part
+    struct.pack("!BBHLHH", 3, 0x82, 0, 7, 500, 500) + b"x",  # lengths beyond the message
+    struct.pack("!BBHLHH", 3, 1, 0, 3, 2, 2) + b"\xff\xfe\xc3\x28",  # label/protocol not UTF-8
+    b"\x02",  # ACK
+    b"\x02extra",
+    b"\x07garbage",  # unknown DCEP message type
+    b"",
+]
+EFFECT_FREE_TYPES = [4, 5, 9, 2, 10, 11, 14, 8, 1, 63, 64, 127, 128, 129, 191, 193, 255]  # once established
+DANGEROUS_TYPES = [0, 3, 6, 7, 130, 192]
+
+
+@st.composite
+def injection(draw, nchan):
+    kind = draw(st.sampled_from([
+        "raw", "mutant", "chunk", "chunk", "chunk-dangerous", "dup-data", "stale-sack", "samecum-sack", "old-fwd",
+        "data-new-stream", "data-new-stream", "dcep-existing", "bad-utf8", "reconfig-typed", "reconfig-raw", "bundle-init",
+        "sack-beyond", "fwd-beyond", "abort", "shutdown"]))
+    op = {"op": "inject", "to": draw(st.integers(0, 1)), "kind": kind, "dt": draw(st.sampled_from([0, 0, 1, 20]))}
+    if kind == "raw":
+        op["data"] = draw(st.binary(max_size=draw(st.sampled_from([0, 1, 11, 12, 16, 40, 1200])))).hex()
+    elif kind == "mutant":
+        spec = draw(chunk_spec())
+        base = S.serialize_packet(5000, 5000, spec["tag"], build_chunk(spec["chunk"]))
+        op["data"] = apply_ops(base, draw(mutation_ops())).hex()
+    elif kind in ("chunk", "chunk-dangerous"):
+        op["ctype"] = draw(st.sampled_from(EFFECT_FREE_TYPES if kind == "chunk" else DANGEROUS_TYPES))
+        op["flags"] = draw(U8)
+        spec = draw(chunk_spec())
+        valid_body = bytes(build_chunk(spec["chunk"]))[4:]
+        body = draw(st.one_of(st.binary(max_size=40), st.just(valid_body[:200])))
+        op["body"] = apply_ops(body, draw(mutation_ops(2))).hex() if draw(st.booleans()) else body.hex()
+        op["tagmode"] = draw(st.sampled_from(["good", "good", "good", "zero", "bad"]))
+    elif kind == "dup-data":
+        op.update(k=draw(st.integers(0, 5)), stream=draw(U16), seq=draw(U16), ppid=draw(st.sampled_from([50, 51, 53, 56, 57, 0])),
+                  flags=draw(st.integers(0, 7)), body=draw(st.binary(max_size=30)).hex())
+    elif kind in ("stale-sack", "samecum-sack", "sack-beyond"):
+        op.update(k=draw(st.integers(1, 5)), rwnd=draw(U32),
+                  gaps=draw(st.one_of(st.lists(st.tuples(U16, U16).map(list), max_size=8),
+                                      st.lists(st.tuples(st.integers(0, 40), st.integers(0, 40)).map(list), max_size=40),
+                                      st.just([[1, 65535]] * 280))),
+                  dups=draw(st.lists(U32, max_size=5)))
+    elif kind in ("old-fwd", "fwd-beyond"):
+        op.update(k=draw(st.integers(0, 5)), streams=draw(st.lists(st.tuples(U16, U16).map(list), max_size=6)))
+    elif kind == "data-new-stream":
+        op.update(stream=1000 + draw(st.integers(0, 9)), seq=draw(st.sampled_from([0, 0, 1, 65535])),
+                  flags=draw(st.sampled_from([3, 7, 7, 2, 1, 0, 5, 6])),
+                  ppid=draw(st.sampled_from([50, 50, 50, 51, 53, 56, 57, 0, 49, 0xFFFFFFFF])),
+                  body=draw(st.one_of(st.sampled_from(DCEP_BODIES), st.binary(max_size=40))).hex())
+    elif kind == "dcep-existing":
+        op.update(ch=draw(st.integers(0, max(0, nchan - 1))), body=draw(st.sampled_from(DCEP_BODIES)).hex())
+    elif kind == "bad-utf8":
+        op.update(ch=draw(st.integers(0, max(0, nchan - 1))), body=draw(st.sampled_from([b"\xff", b"abc\xc3", b"\xed\xa0\x80", b"\x80ok"])).hex())
+    elif kind == "reconfig-typed":
+        params = []
+        for _ in range(draw(st.integers(1, 3))):
+            t = draw(st.sampled_from([13, 16, 17]))
+            if t == 13:
+                params.append([13, bytes(S.StreamResetOutgoingParam(draw(U32), draw(U32), draw(U32),
+                                                                    [1000 + x for x in draw(st.lists(st.integers(0, 50), max_size=6))])).hex()])
+            elif t == 16:
+                params.append([16, bytes(S.StreamResetResponseParam(draw(U32), draw(st.integers(0, 6)))).hex()])
+            else:
+                params.append([17, bytes(S.StreamAddOutgoingParam(draw(U32), draw(st.integers(0, 16)))).hex()])
+        op["params"] = params
+    elif kind == "reconfig-raw":
+        op["params"] = draw(st.lists(st.tuples(st.sampled_from([13, 16, 17, 14, 15, 18, 0, 0x8008]),
+                                               st.binary(max_size=16).map(bytes.hex)).map(list), min_size=1, max_size=3))
+    elif kind == "bundle-init":
+        op["second"] = draw(st.sampled_from([0, 1, 3, 4, 6, 11]))
+    return op
+
+
+@st.composite
+def inject_case(draw, tier="quick"):
+    nchan = draw(st.integers(1, 3))
+    creates = [draw(create_op(reliable_only=True)) for _ in range(nchan)]
+    early = draw(st.integers(0, 5)) == 0  # some injections before / during association set-up
+    ops = list(creates)
+    if early:
+        for _ in range(draw(st.integers(1, 3))):
+            ops.append(draw(injection(nchan)))
+    ops.append({"op": "await_open", "max_ms": 60000})
+    body = draw(st.lists(st.one_of(send_op(nchan), injection(nchan), injection(nchan)), min_size=1, max_size=14))
+    if not any(o["op"] == "inject" for o in body) and not early:
+        body.append(draw(injection(nchan)))
+    ops += body
+    clean = draw(st.integers(0, 2)) != 0
+    return {"client": draw(st.integers(0, 1)), "start_at": draw(st.sampled_from([0, 0, len(creates)])), "ops": ops,
+            "fates": [[], []] if clean else [draw(fate_list(max_segments=4)), draw(fate_list(max_segments=4))]}
+
+
+def _packet(tag: int, chunk_bytes: bytes) -> bytes:
+    header = struct.pack("!HHL", 5000, 5000, tag & 0xFFFFFFFF)
+    return header + struct.pack("<L", crc32c(header + b"\0\0\0\0" + chunk_bytes)) + chunk_bytes
+
+
+def _raw_chunk(ctype: int, flags: int, body: bytes) -> bytes:
+    data = struct.pack("!BBH", ctype & 0xFF, flags & 0xFF, len(body) + 4) + body
+    return data + b"\0" * (-len(data) % 4)
+
+
+def build_injection(sess: Session, op: dict):
+    """-> (datagram, neutral?) built against the live association state."""
+    to = op.get("to", 0) % 2
+    rx, peer = sess.sctp[to], sess.sctp[1 - to]
+    established = all(t._association_state == t.State.ESTABLISHED for t in sess.sctp)
+    tag = rx._local_verification_tag
+    kind = op.get("kind")
+    M = 1 << 32
+
+    def steal_tsn() -> int:
+        tsn = peer._local_tsn
+        peer._local_tsn = (peer._local_tsn + 1) % M
+        return tsn
+
+    def data_chunk(tsn, stream, seq, ppid, flags, body):
+        c = S.DataChunk(flags=flags & 7)
+        c.tsn, c.stream_id, c.stream_seq, c.protocol, c.user_data = tsn % M, stream & 0xFFFF, seq & 0xFFFF, ppid & 0xFFFFFFFF, body
+        return bytes(c)
+
+    if kind in ("raw", "mutant"):
+        return bytes.fromhex(op.get("data", "")), True
+    if kind in ("chunk", "chunk-dangerous"):
+        ctype = op.get("ctype", 4) & 0xFF
+        tagmode = op.get("tagmode", "good")
+        t = {"good": tag, "zero": 0, "bad": (tag ^ 0x5A5A5A5A) or 1}[tagmode if tagmode in ("good", "zero", "bad") else "good"]
+        effective = (ctype == 1 and t == 0) or (ctype != 1 and t == tag)
+        neutral = (not effective) or (established and ctype in EFFECT_FREE_TYPES)
+        return _packet(t, _raw_chunk(ctype, op.get("flags", 0), bytes.fromhex(op.get("body", "")))), neutral
+    if rx._last_received_tsn is None or not established:
+        # crafted chunks need an association; before that only the generic kinds are injected
+        return b"", True
+    if kind == "dup-data":
+        tsn = (rx._last_received_tsn - op.get("k", 0)) % M
+        return _packet(tag, data_chunk(tsn, op.get("stream", 0), op.get("seq", 0), op.get("ppid", 0), op.get("flags", 3),
+                                       bytes.fromhex(op.get("body", "")))), True
+    if kind in ("stale-sack", "samecum-sack", "sack-beyond"):
+        c = S.SackChunk()
+        k = max(1, op.get("k", 1))
+        c.cumulative_tsn = (rx._last_sacked_tsn + {"stale-sack": -k, "samecum-sack": 0, "sack-beyond": k}[kind]) % M
+        c.advertised_rwnd = op.get("rwnd", 0) & 0xFFFFFFFF
+        c.gaps = [(g[0] & 0xFFFF, g[1] & 0xFFFF) for g in op.get("gaps", []) if isinstance(g, (list, tuple)) and len(g) == 2][:290]
+        c.duplicates = [d & 0xFFFFFFFF for d in op.get("dups", [])]
+        # a zero receiver window legitimately throttles the sender; keep the neutral variants neutral
+        if kind != "sack-beyond":
+            c.advertised_rwnd = max(c.advertised_rwnd, 1 << 20)
+        return _packet(tag, bytes(c)), kind != "sack-beyond"
+    if kind in ("old-fwd", "fwd-beyond"):
+        c = S.ForwardTsnChunk()
+        k = op.get("k", 0)
+        c.cumulative_tsn = (rx._last_received_tsn + (-k if kind == "old-fwd" else k + 1)) % M
+        c.streams = [(x[0] & 0xFFFF, x[1] & 0xFFFF) for x in op.get("streams", []) if isinstance(x, (list, tuple)) and len(x) == 2]
+        return _packet(tag, bytes(c)), kind == "old-fwd"
+    if kind == "data-new-stream":
+        if op.get("stream", 1000) in rx._data_channels and op.get("ppid") != 50:
+            return b"", True
+        return _packet(tag, data_chunk(steal_tsn(), op.get("stream", 1000), op.get("seq", 0), op.get("ppid", 50), op.get("flags", 7),
+                                       bytes.fromhex(op.get("body", "")))), True
+    if kind in ("dcep-existing", "bad-utf8"):
+        if not sess.channels:
+            return b"", True
+        rec = sess.channels[op.get("ch", 0) % len(sess.channels)]
+        ch = rec.objs.get(to)
+        if ch is None or ch.id is None or ch.readyState != "open":
+            return b"", True
+        # unordered flag: the stream sequence numbers of the channel are left alone
+        ppid = 50 if kind == "dcep-existing" else 51
+        return _packet(tag, data_chunk(steal_tsn(), ch.id, 0, ppid, 7, bytes.fromhex(op.get("body", "")))), True
+    if kind in ("reconfig-typed", "reconfig-raw"):
+        c = S.ReconfigChunk()
+        c.params = [(p[0] & 0xFFFF, bytes.fromhex(p[1])) for p in op.get("params", []) if isinstance(p, (list, tuple)) and len(p) == 2]
+        pending_close = rx._reconfig_request is not None or any(o.get("op") == "close" for o in sess.case.get("ops", []))
+        neutral = kind == "reconfig-typed" and not pending_close
+        if kind == "reconfig-raw":
+            neutral = all(p[0] not in (13, 16) for p in c.params) and not pending_close
+        return _packet(tag, bytes(c)), neutral
+    if kind == "bundle-init":
+        init = S.InitChunk()
+        init.initiate_tag, init.advertised_rwnd, init.outbound_streams, init.inbound_streams, init.initial_tsn = 7, 1 << 20, 10, 10, 99
+        second = _raw_chunk(op.get("second", 4), 0, b"\0" * 16)
+        return _packet(0, bytes(init) + second), True
+    if kind == "abort":
+        return _packet(tag, bytes(S.AbortChunk())), False
+    if kind == "shutdown":
+        c = S.ShutdownChunk()
+        c.cumulative_tsn = rx._last_sacked_tsn
+        return _packet(tag, bytes(c)), False
+    return b"", True
+
+
+def sctp_budget(sess: Session):
+    def budget(side: int, data: bytes) -> int:
+        t = sess.sctp[side]
+        queued = len(t._sent_queue) + len(t._outbound_queue) + len(t._data_channel_queue)
+        held = sum(len(st_.reassembly) for st_ in t._inbound_streams.values())
+        return 300 * (len(data) + 64) + 600 * (queued + held) + 30000
+    return budget
+
+
+def run_inject(case: dict) -> Outcome:
+    s = Session(case)
+    s.meter_budget = sctp_budget(s)
+    state = {"neutral": True, "kinds": set(), "effective": 0}
+    probes: list = []
+
+    def extra_op(n: int, op: dict) -> None:
+        if op.get("op") != "inject" or not s.sctp or s.link is None:
+            return
+        datagram, neutral = build_injection(s, op)
+        if not datagram and op.get("kind") not in ("raw", "mutant"):
+            return
+        state["kinds"].add(str(op.get("kind")))
+        if not neutral:
+            state["neutral"] = False
+        est = all(t._association_state == t.State.ESTABLISHED for t in s.sctp)
+        state["kinds"].add("state=established" if est else "state=handshake")
+        if est and s.sctp[op.get("to", 0) % 2]._sent_queue:
+            state["kinds"].add("state=data-outstanding")
+        s.link.inject(op.get("to", 0) % 2, datagram)
+        state["effective"] += 1
+
+    async def after_drain(sess: Session) -> None:
+        if not state["neutral"] or not all(sess.was_established):
+            return
+        for rec in sess.channels:
+            for side, ch in list(rec.objs.items()):
+                if ch.readyState == "open" and rec.objs.get(1 - side) is not None:
+                    value = f"probe.{rec.idx}.{side}".encode()
+                    rec.sent[side].append(value)
+                    probes.append((rec, side, value))
+                    ch.send(value)
+        await asyncio.sleep(0)
+
+    s.extra_op = extra_op
+    s.after_drain = after_drain
+    s.run()
+    classes = session_classes(s) | {"inj=" + k for k in state["kinds"]}
+    classes.add("all-neutral" if state["neutral"] else "non-neutral")
+    nt = state["effective"] > 0 and all(s.was_established)
+    cl = tuple(sorted(classes))
+    bp = base_problems(s)
+    if bp:
+        return Outcome(bp[1], bp[0], nt, cl)
+    if not state["neutral"]:
+        return Outcome(None, None, nt, cl)
+    if s.problems:
+        kind, msg = s.problems[0]
+        return Outcome("after neutral injections only: " + msg, "transcript-" + kind, nt, cl)
+    v = drain_verdict(s)
+    if v and v[0] == "not-established":
+        return Outcome(None, None, False, cl)
+    if v and v[0] == "inconclusive":
+        return Outcome(None, None, nt, cl, inconclusive=True)
+    if v:
+        return Outcome("after neutral injections only: " + v[1], "wedged-" + v[0], nt, cl)
+    for rec, side, value in probes:
+        if value not in rec.delivered[side]:
+            return Outcome(f"after neutral injections only: probe on channel {rec.idx} {side}->{1 - side} was never delivered",
+                           "wedged-probe-lost", nt, cl)
+    return Outcome(None, None, nt, cl)
+
+
+# --------------------------------------------------------------------------
+# family 3: RTP / RTCP datagrams through the real transport dispatch with real receivers and a sender
+
+AUDIO_SSRC, VIDEO_SSRC, RTX_SSRC, SENDER_SSRC = 0x1111, 0x2222, 0x3333, 0x4444
+KNOWN_SSRCS = [AUDIO_SSRC, VIDEO_SSRC, RTX_SSRC, SENDER_SSRC]
+PT_OPUS, PT_VP8, PT_RTX, PT_H264 = 111, 100, 101, 102
+KNOWN_PTS = [PT_OPUS, PT_VP8, PT_RTX, PT_H264, 0, 127]
+_CERT = None
+
+
+def _cert():
+    global _CERT
+    if _CERT is None:
+        from aiortc.rtcdtlstransport import RTCCertificate
+
+        _CERT = RTCCertificate.generateCertificate()
+    return _CERT
+
+
+@st.composite
+def rtp_event(draw, counters):
+    kind = draw(st.sampled_from(["valid", "valid", "valid", "jump", "mutant", "crafted-ext", "rtx-short", "random", "rtcp", "rtcp",
+                                  "rtcp-mutant"]))
+    ev = {"dt": draw(st.sampled_from([0, 0, 1, 5, 20, 700]))}
+    if kind in ("valid", "jump", "rtx-short"):
+        which = draw(st.sampled_from(["audio", "video", "video", "rtx", "h264"]))
+        ssrc = {"audio": AUDIO_SSRC, "video": VIDEO_SSRC, "h264": VIDEO_SSRC, "rtx": RTX_SSRC}[which]
+        pt = {"audio": PT_OPUS, "video": PT_VP8, "h264": PT_H264, "rtx": PT_RTX}[which]
+        c = counters.setdefault(ssrc, {"seq": draw(st.sampled_from([0, 100, 65500, 65530])), "ts": draw(st.sampled_from([0, 2**32 - 5000]))})
+        if kind == "jump":
+            c["seq"] += draw(st.sampled_from([-200, -99, 127, 128, 129, 1000, 32767, 32768, 40000]))
+        else:
+            c["seq"] += draw(st.sampled_from([1, 1, 1, 1, 2, 0, -1, 3]))
+        if draw(st.integers(0, 2)) == 0:
+            c["ts"] += draw(st.sampled_from([960, 3000, 3000, 0, 2**31]))
+        if which == "audio":
+            payload = draw(st.binary(min_size=0, max_size=20))
+        elif which == "video":
+            payload = draw(st.one_of(st.just(b"\x10") , st.just(b"\x90\x80\x05"), st.binary(max_size=4))) + draw(st.binary(max_size=20))
+        elif which == "h264":
+            payload = draw(st.one_of(st.just(b"\x65"), st.just(b"\x7c\x85"), st.just(b"\x78\x00\x03"), st.binary(max_size=3))) + draw(st.binary(max_size=20))
+        else:
+            osn = draw(st.integers(0, 65535))
+            payload = struct.pack("!H", osn) + draw(st.one_of(st.just(b"\x10abc"), st.binary(max_size=10)))
+            if kind == "rtx-short":
+                payload = payload[: draw(st.integers(0, 1))]
+        pkt = R.RtpPacket(payload_type=pt, marker=draw(st.integers(0, 1)), sequence_number=c["seq"] & 0xFFFF,
+                          timestamp=c["ts"] & 0xFFFFFFFF, ssrc=ssrc, payload=payload)
+        if draw(st.booleans()):
+            pkt.extensions.abs_send_time = draw(st.integers(0, 0xFFFFFF))
+        if draw(st.integers(0, 3)) == 0:
+            pkt.extensions.mid = draw(st.sampled_from(["0", "1", "xx"]))
+        ev.update(t="rtp", data=pkt.serialize(make_map(ALL_EXT_IDS)).hex())
+    elif kind in ("mutant", "crafted-ext", "random"):
+        pc = draw(parser_case().filter(lambda c: c["target"] == "rtp"))
+        data = bytearray(bytes.fromhex(pc["data"]))
+        if len(data) >= 12 and draw(st.booleans()):
+            data[8:12] = struct.pack("!L", draw(st.sampled_from(KNOWN_SSRCS)))
+            data[1] = (data[1] & 0x80) | draw(st.sampled_from(KNOWN_PTS))
+        ev.update(t="rtp", data=bytes(data).hex())
+    else:
+        pkts = draw(st.lists(rtcp_packet(), min_size=1, max_size=3))
+        for pk in pkts:
+            for key in ("ssrc", "media_ssrc"):
+                if key in pk and draw(st.booleans()):
+                    pk[key] = draw(st.sampled_from(KNOWN_SSRCS))
+            if pk["k"] in ("sr", "rr") and pk["reports"] and draw(st.booleans()):
+                pk["reports"][0]["ssrc"] = draw(st.sampled_from(KNOWN_SSRCS))
+            if pk["k"] == "bye" and pk["sources"] and draw(st.integers(0, 3)) == 0:
+                pk["sources"][0] = draw(st.sampled_from(KNOWN_SSRCS))
+            if pk["k"] == "psfb" and pk["fmt"] == 15 and draw(st.booleans()):
+                cnt = draw(st.sampled_from([0, 1, 2, 200, 255]))
+                pk["fci"] = (b"REMB" + bytes([cnt]) + draw(st.binary(min_size=3, max_size=3)) + struct.pack("!L", SENDER_SSRC) * min(cnt, 2)).hex()
+        data = b"".join(bytes(build_rtcp(pk)) for pk in pkts)
+        if kind == "rtcp-mutant":
+            data = apply_ops(data, draw(mutation_ops()))
+        ev.update(t="rtcp", data=data.hex())
+    ev["kind"] = kind
+    return ev
+
+
+@st.composite
+def rtp_inject_case(draw, tier="quick"):
+    counters: dict = {}
+    n = draw(st.integers(1, 40 if tier == "quick" else 120))
+    return {"events": [draw(rtp_event(counters)) for _ in range(n)], "probe_seq": draw(st.sampled_from([0, 5000, 65520])),
+            "probe_ts": draw(st.sampled_from([0, 2**32 - 20000]))}
+
+
+def run_rtp_inject(case: dict) -> Outcome:
+    import datetime
+    import threading
+
+    import aiortc.rtcrtpreceiver as RX
+    import aiortc.rtcrtpsender as TX
+    from aiortc.rtcdtlstransport import RTCDtlsTransport
+    from aiortc.rtcrtpparameters import (RTCRtpCodecParameters, RTCRtpDecodingParameters, RTCRtpHeaderExtensionParameters,
+                                         RTCRtpReceiveParameters, RTCRtpRtxParameters)
+    from checks.c07_rtp import URIS
+    from vlib import vloop
+    from vlib.patches import RandomShim, patched, virtual_clocks
+
+    taps: dict = {"audio": [], "video": []}
+    result: dict = {"violation": None, "kind": None, "classes": set(), "max_work": 0}
+
+    class Ice:
+        role = "controlling"
+
+        async def _send(self, data: bytes) -> None:
+            pass
+
+    def make_worker():
+        def worker(loop, input_q, output_q):  # stands in for the decoder thread: records what it is handed
+            while True:
+                task = input_q.get()
+                if task is None:
+                    break
+                codec, frame = task
+                taps["video" if codec.mimeType.lower().startswith("video") else "audio"].append((frame.timestamp, bytes(frame.data)))
+        return worker
+
+    async def main(loop):
+        transport = RTCDtlsTransport(Ice(), [_cert()])
+        sent: list = []
+
+        async def send_rtp(data: bytes) -> None:
+            sent.append(data)
+
+        transport._send_rtp = send_rtp  # type: ignore[method-assign]
+        hdr = [RTCRtpHeaderExtensionParameters(id=i, uri=URIS[f]) for f, i in ALL_EXT_IDS.items()]
+        audio = RX.RTCRtpReceiver("audio", transport)
+        audio._track = RX.RemoteStreamTrack(kind="audio")
+        audio._set_rtcp_ssrc(0x9999)
+        video = RX.RTCRtpReceiver("video", transport)
+        video._track = RX.RemoteStreamTrack(kind="video")
+        video._set_rtcp_ssrc(0x9998)
+        await audio.receive(RTCRtpReceiveParameters(
+            codecs=[RTCRtpCodecParameters(mimeType="audio/opus", clockRate=48000, channels=2, payloadType=PT_OPUS)],
+            headerExtensions=hdr, muxId="0", encodings=[RTCRtpDecodingParameters(ssrc=AUDIO_SSRC, payloadType=PT_OPUS)]))
+        await video.receive(RTCRtpReceiveParameters(
+            codecs=[RTCRtpCodecParameters(mimeType="video/VP8", clockRate=90000, payloadType=PT_VP8),
+                    RTCRtpCodecParameters(mimeType="video/rtx", clockRate=90000, payloadType=PT_RTX, parameters={"apt": PT_VP8}),
+                    RTCRtpCodecParameters(mimeType="video/H264", clockRate=90000, payloadType=PT_H264)],
+            headerExtensions=hdr, muxId="1",
+            encodings=[RTCRtpDecodingParameters(ssrc=VIDEO_SSRC, payloadType=PT_VP8, rtx=RTCRtpRtxParameters(ssrc=RTX_SSRC))]))
+        sender = TX.RTCRtpSender("video", transport)
+        sender._ssrc = SENDER_SSRC
+        transport._rtp_router.register_sender(sender, ssrc=SENDER_SSRC)
+
+        async def feed(t: str, data: bytes, budget: int):
+            try:
+                with work_meter(budget) as m:
+                    if t == "rtcp":
+                        await transport._handle_rtcp_data(data)
+                    else:
+                        await transport._handle_rtp_data(data, arrival_time_ms=int(loop.wall() * 1000))
+                result["max_work"] = max(result["max_work"], m.count)
+                return None
+            except Exception as exc:
+                return exc
+
+        try:
+            for n, ev in enumerate(case.get("events", [])):
+                if not isinstance(ev, dict) or "data" not in ev:
+                    continue
+                if ev.get("dt"):
+                    await asyncio.sleep(ev["dt"] / 1000.0)
+                try:
+                    data = bytes.fromhex(ev["data"])
+                except (ValueError, TypeError):
+                    continue
+                t = "rtcp" if ev.get("t") == "rtcp" else "rtp"
+                result["classes"].add("ev=" + str(ev.get("kind")))
+                exc = await feed(t, data, 300 * (len(data) + 64) + 400000)
+                if exc is not None:
+                    fn = "_handle_rtcp_data" if t == "rtcp" else "_handle_rtp_data"
+                    if isinstance(exc, WorkBudgetExceeded):
+                        result["violation"] = f"event {n}: {fn} on {len(data)} bytes: {exc}"
+                        result["kind"] = f"rtp-work:{t}"
+                    else:
+                        result["violation"] = f"event {n}: {type(exc).__name__} escaped {fn}: {exc!r}"[:300]
+                        result["kind"] = f"rtp-raised:{t}:{type(exc).__name__}"
+                    return
+            # liveness: fresh valid media from new sources must still reach the decoders
+            for rcv, name, pt, ssrc, mk in ((audio, "audio", PT_OPUS, 0x7001, lambda i: b"A%03d" % i),
+                                            (video, "video", PT_VP8, 0x7002, lambda i: b"\x10V%03d" % i)):
+                if rcv._RTCRtpReceiver__decoder_thread is None:
+                    result["classes"].add("bye-" + name)
+                    continue
+                before = len(taps[name])
+                # a new source starts at an arbitrary sequence number; one that happens to lie just behind what the
+                # receiver's (shared) jitter buffer holds would legitimately be dropped as late, so the probe starts well
+                # ahead of the buffer's origin (anchored state) and is longer than twice its capacity
+                jb = rcv._RTCRtpReceiver__jitter_buffer
+                start = ((jb._origin or 0) + 5000 + case.get("probe_seq", 0)) & 0xFFFF
+                count = 2 * jb.capacity + 40
+                for i in range(count):
+                    pkt = R.RtpPacket(payload_type=pt, marker=1, sequence_number=(start + i) & 0xFFFF,
+                                      timestamp=(case.get("probe_ts", 0) + 3000 * i) & 0xFFFFFFFF, ssrc=ssrc, payload=mk(i))
+                    exc = await feed("rtp", pkt.serialize(make_map(ALL_EXT_IDS)), 500000)
+                    if exc is not None:
+                        result["violation"] = f"probe packet {i} on the {name} receiver: {type(exc).__name__} escaped: {exc!r}"[:300]
+                        result["kind"] = f"rtp-probe-raised:{type(exc).__name__}"
+                        return
+                await asyncio.sleep(0.01)
+                for _ in range(200):  # the tap thread is the one thing not on the loop
+                    if len(taps[name]) - before >= 10:
+                        break
+                    await asyncio.sleep(0)
+                    threading.Event().wait(0.0005)
+                got = len(taps[name]) - before
+                if got < 10:
+                    result["violation"] = (f"after the injected datagrams {count} fresh in-order {name} packets from a new source produced "
+                                           f"only {got} frames at the decoder (expected at least 10)")
+                    result["kind"] = f"rtp-wedged-{name}"
+                    return
+        finally:
+            await audio.stop()
+            await video.stop()
+
+    shim_now = lambda: asyncio.get_event_loop().wall()  # noqa: E731
+    try:
+        with virtual_clocks(shim_now, sctp=False), patched(RX, decoder_worker=make_worker(), random=RandomShim([0.5])):
+            vloop.run_sim(main, max_iterations=400000, cpu_seconds=120)
+    except vloop.SimAbort as exc:
+        return Outcome(f"simulation aborted: {exc!r}", "sim-abort:" + type(exc).__name__, True, tuple(sorted(result["classes"])))
+    cl = tuple(sorted(result["classes"]))
+    if result["violation"]:
+        return Outcome(result["violation"], result["kind"], True, cl)
+    nt = any(c in cl for c in ("ev=valid", "ev=jump", "ev=rtcp", "ev=crafted-ext", "ev=rtx-short"))
+    return Outcome(None, None, nt, cl, info={"max_work": result["max_work"]})
+
+
 CHECK = Check(
     prop="C05",
     level="exploration",
@@ -237,6 +743,8 @@ CHECK = Check(
     ),
     families=[
         Family("parsers", run_parser, parser_case, quick=20000, thorough=600000, min_shard=500),
+        Family("sctp-inject", run_inject, inject_case, quick=2500, thorough=80000, min_shard=20),
+        Family("rtp-inject", run_rtp_inject, rtp_inject_case, quick=1500, thorough=50000, min_shard=20),
     ],
     floor=500,
     assumptions=["work is measured as executed Python lines/jumps inside aiortc (deterministic), not wall time"],
